@@ -86,7 +86,8 @@ LEVEL_TEXT = ("C13_<importer>_faithful and C13_<importer>_end_to_end (Coq): for 
               "exchange rows in two commodities; an assertion at every change of date), C13_wise_faithful (zero, one or two transactions per "
               "row as ws_entries lists them) with C13_wise_incoming_conversion_refuted (IN with conversion credits the target amount twice), "
               "C13_swissquote_faithful (one transaction per row except one per pair of exchange rows) with "
-              "C13_swissquote_open_exchange_dropped, and C13_interactivebrokers_faithful / _end_to_end / _stdout (for every well-formed activity "
+              "C13_swissquote_open_exchange_dropped, each with C13_<importer>_end_to_end (all account flags valid: the command succeeds and prints "
+              "journal.Print of exactly those directives), and C13_interactivebrokers_faithful / _end_to_end / _stdout (for every well-formed activity "
               "statement - every record well-formed, Forex trades after the Base Currency record, balance rows after the Period record - the "
               "importer emits, in record order, exactly one transaction per booking row (stock and Forex trades with their commission "
               "bookings, deposits/withdrawals, dividends, withholding tax, interest), exactly one balance assertion, dated on the end of the "
@@ -103,8 +104,8 @@ LEVEL_NOTE = ("Trusted: kernel, extraction, harness, Go's csv/json/charset reade
               "the round trip is checked on the binary (knut print), not proved (parser model: C07/C09).  Group B: 100 well-formed + "
               "34 damaged statements per importer in the quick tier; for interactivebrokers the statement-level specification is also run: every "
               "generated well-formed statement must satisfy ibs_wf (the theorem's hypothesis) and the binary's stdout must equal "
-              "ibs_statement_output of its records; revolut2, revolut, wise and swissquote have no end-to-end (flags to stdout) theorem, "
-              "their _faithful theorems are about the importer function.  Findings: the wise double credit of a converted incoming payment was "
+              "ibs_statement_output of its records; every importer now has a _faithful theorem (importer function) and an _end_to_end theorem "
+              "(valid account flags to journal.Print on stdout; viac also with --from: C13_viac_end_to_end_from).  Findings: the wise double credit of a converted incoming payment was "
               "repaired in /repo (0ec20cd; the model follows); interactivebrokers' rounding to two places (golden file pins it) and "
               "cumulus' dropped payment rows are known findings, printed as KNOWN-FINDING lines.")
 
